@@ -8,7 +8,7 @@ RULE = ("every event history of the MC_Parser instances children / attrs / text 
 
 
 def run(tier, rep):
-    pc.check(rep, "C01", tier, ["children", "attrs", "text", "docs3"], {"unsound"}, "C01",
+    pc.check(rep, "C01", tier, ["children", "attrs", "text", "docs3", "mixed"], {"unsound"}, "C01",
              sessions=400 if tier == "quick" else 6000, nontrivial=pc.has_demotion_or_multi, rule=RULE,
              invariants=["TypeOK", "Sound", "StackWF", "ResultWF"])
     # the composition parser -> renderer on the model: the *rendered* structs describe every consumed document
